@@ -158,6 +158,7 @@ def _hier(ctx, rng, case, order, tag):
     ctx.count('hier_gradients_compared')
     res = _grad_check(ctx, case.obj, x, rv, rg, feats, case.describe(),
                       tag, order)
+    c02.check_integer_vector(ctx, case, rng, with_s1=True)
     if res is not None:
         bad, grad, g_ref = res
         free_idx = np.flatnonzero(case.free_mask())
